@@ -43,8 +43,14 @@ def gen_consts(ctx):
         c["bextMax"] = c["bextMin"] + int(m.group(1)) * int(m.group(2)) if m else int(mx, 0)
         c["cartMin"] = int(define("WAV_CART_MIN_CHUNK_SIZE"))
         c["cartMax"] = int(define("WAV_CART_MAX_CHUNK_SIZE"), 0)
-        m = re.search(r"char\s+buffer \[(\d+)\] ;\s*\n\s*uint32_t\s+chunk_size, bytesread = 0", src)
-        c["infoBuffer"] = int(m.group(1))
+        # the smallest text buffer of wavlike_subchunk_parse: `SF_MAX (SF_MIN (chunk_length, 100 * 1024u), 2047u) + 1` since the repair of
+        # KF-C12-INFO-2046 (a tree with the former `char buffer [2048]` gives the same constant and then differs from the model at the points)
+        m = re.search(r"bufsize = SF_MAX \(SF_MIN \(chunk_length, \d+ \* \d+u\), (\d+)u\) \+ 1 ;", src)
+        if m:
+            c["infoBuffer"] = int(m.group(1)) + 1
+        else:
+            m = re.search(r"char\s+buffer \[(\d+)\] ;\s*\n\s*uint32_t\s+chunk_size, bytesread = 0", src)
+            c["infoBuffer"] = int(m.group(1))
         m = re.search(r"if \(cue_count > (\d+)\)", wav)
         c["cueMax"] = int(m.group(1))
         m = re.search(r"if \(newlen > (\d+) \* (\d+)\)", com)
@@ -176,10 +182,19 @@ def points(c, rng):
             P.append(("cart", "cart %d" % L, wav_file([(b"cart", L, body)]), "vio", lambda o, l, m, L=L: obs_cart(o, l, m, L)))
 
     # LIST / INFO string -----------------------------------------------------------------------------
-    def obs_info(opened, log, meta, s, cs):
+    def obs_info(opened, log, meta, s, cs, later=False):
         m = re.search(r"\*\*\* ISFT : (\d+) \(too big\)", log)
         if m:
             return "too-big %s" % m.group(1)
+        m = re.search(r"    ISFT : (\d+) \(too long, skipping\)", log)
+        if m:
+            # repair (a): only that item is skipped -- the IART item the roomy files carry behind it must still arrive
+            if opened and later and meta.get("s4", "null") == "null":
+                return "skip %s LATER-ITEM-LOST" % m.group(1)
+            return "skip %s" % m.group(1)
+        m = re.search(r"    ISFT : (\d+) \(cannot be read, skipping\)", log)
+        if m:                                                   # memset + header_read were done: the site's "read"; the header cache refused
+            return "read %s" % m.group(1)
         if "    ISFT : " in log:
             if not opened:
                 return "read ?"
@@ -188,18 +203,21 @@ def points(c, rng):
             return "read %d" % (n + (n & 1))
         return "no-log-line"
     ib = c["infoBuffer"]
-    for s in sorted(set([0, 1, 2, 3, 100, ib - 3, ib - 2, ib - 1, ib, ib + 1, ib + 2, 4096, U31, U32 - 1, U32])):
+    hcap = c["headerCap"]
+    LONG = 5000
+    for s in sorted(set([0, 1, 2, 3, 100, ib - 3, ib - 2, ib - 1, ib, ib + 1, ib + 2, 4096, 4999, hcap - 2, hcap, hcap + 1, hcap + 2, U31, U32 - 1, U32])):
         cs = (s + (s & 1)) & U32
+        cap = LONG if s > hcap + 10 or s < hcap - 10 else s + 1     # around the header cap the item is really there
         for fit in ("exact", "minus1", "roomy"):
-            text = bytes([A]) * min(s, 5000) + (b"\0" if s & 1 else b"")
+            text = bytes([A]) * min(s, cap) + (b"\0" if s & 1 else b"")
             sub = b"INFO" + b"ISFT" + struct.pack("<I", s) + text
             lc = len(sub) if fit == "exact" else (len(sub) - 1 if fit == "minus1" else len(sub) + 10)
-            lbody = sub if fit != "roomy" else sub + b"IXXX" + struct.pack("<I", 2) + b"zz"
-            if fit == "minus1" and (s > 5000 or len(sub) < 13):
+            lbody = sub if fit != "roomy" else sub + b"IART" + struct.pack("<I", 2) + b"z\0"
+            if fit == "minus1" and (s > cap or len(sub) < 13):
                 continue
-            if s > 5000:
-                lc = 12 + 5000                                  # the LIST chunk is what it is; the size field lies
-            P.append(("info", "info %d 12 %d" % (s, lc), wav_file([(b"LIST", lc, lbody)]), "vio", lambda o, l, m, s=s, cs=cs: obs_info(o, l, m, s, cs)))
+            if s > cap:
+                lc = 12 + cap                                   # the LIST chunk is what it is; the size field lies
+            P.append(("info", "info %d 12 %d" % (s, lc), wav_file([(b"LIST", lc, lbody)]), "vio", lambda o, l, m, s=s, cs=cs, later=(fit == "roomy"): obs_info(o, l, m, s, cs, later)))
 
     # cue ---------------------------------------------------------------------------------------------
     def obs_cue(opened, log, meta, count):
@@ -251,6 +269,8 @@ def points(c, rng):
             return "too-big"
         if size == 0:
             return "empty" if (" %s : " % tag) not in log else "logged-empty"
+        if " %s : %d (cannot be read, skipping)" % (tag, size) in log:      # memset + header_read were done: the site's "read"
+            return "read %d" % size
         if " %s : " % tag in log:
             if not opened:
                 return "read ?"
@@ -259,8 +279,10 @@ def points(c, rng):
         return "no-log-line"
     sb = c["scbuf"]
     for (tag, key, slack) in ((b"NAME", "s1", 2), (b"AUTH", "s4", 1), (b"(c) ", "s2", 0), (b"ANNO", "s5", 2)):
-        for size in sorted(set([0, 1, 2, 255, sb - 4, sb - 3, sb - 2, sb - 1, sb, sb + 1, U31, U32])):
-            body = bytes([A]) * min(size, 9000) + (b"\0" if size & 1 and size < 9000 else b"")
+        # around the former 8 KiB scratch buffer, and around the header cap (minus the 66 bytes of FORM/COMM in front: the last size
+        # the header cache delivers -- beyond it the chunk is not read, the model says so too: `too-big` only above the cap itself)
+        for size in sorted(set([0, 1, 2, 255, sb - 4, sb - 3, sb - 2, sb - 1, sb, sb + 1, 9000, 20001, c["headerCap"] + 1, c["headerCap"] + 2, U31, U32])):
+            body = bytes([A]) * min(size, 21000) + (b"\0" if size & 1 and size < 21000 else b"")
             P.append(("aifftext", "aifftext %d %d" % (slack, size), aiff_file([(tag, size, body)]), "vio",
                       lambda o, l, m, size=size, tag=tag.decode(), key=key: obs_atext(o, l, m, size, tag, key)))
 
